@@ -156,7 +156,7 @@ theorem C01_accept_union (o : DOpts) (ho : OptsOk o) (cs : Constraints) (hu : cs
     altOk o ho cs hu t (hts t ht).1 (hts t ht).2.1
   have hany := any_compileL ts d hw halt
   have hseq : (run (.union (compileL o cs ts)) d).isOk = conformsAny o.additionalProperties false cs ts d := by
-    rw [isOk_val?, run, C13_sequential _ d Option.none (fun m hm => nc_compileL ts halt m hm d hj), firstOk_isSome, hany]
+    rw [isOk_val?, run, C13_sequential _ d Option.none (fun m hm => nc_compileL ts halt m hm d (jsonX_of_json.1 d hj)), firstOk_isSome, hany]
   unfold unionSel
   simp only
   split
